@@ -8,6 +8,7 @@ import (
 	"runtime/debug"
 	"sort"
 	"strings"
+	"sync/atomic"
 
 	"seehuhn.de/go/postscript/cid"
 
@@ -99,6 +100,29 @@ type walker struct {
 
 var errStopPage = errors.New("c05: operator limit reached")
 
+// countingSource is the byte source of a walk.  It never fails, except that
+// with limit > 0 it refuses to deliver more than limit bytes (see run).
+type countingSource struct {
+	r       *bytes.Reader
+	n       atomic.Int64 // bytes delivered since the counter was reset
+	calls   atomic.Int64
+	limit   atomic.Int64
+	tripped atomic.Bool
+}
+
+var errReadBudget = errors.New("c05: read budget of this phase exhausted")
+
+func (c *countingSource) ReadAt(p []byte, off int64) (int, error) {
+	c.calls.Add(1)
+	if l := c.limit.Load(); l > 0 && c.n.Load() > l {
+		c.tripped.Store(true)
+		return 0, errReadBudget
+	}
+	n, err := c.r.ReadAt(p, off)
+	c.n.Add(int64(n))
+	return n, err
+}
+
 // step runs f and converts a panic into a violation.  It reports whether
 // the walk may continue.
 func (w *walker) step(name string, f func()) (ok bool) {
@@ -139,13 +163,28 @@ func Walk(data []byte, mode pdf.ReaderErrorHandling, pw string) (*walkStats, err
 
 func (w *walker) run() {
 	st := w.st
-	src := bytes.NewReader(w.data)
+	src := &countingSource{r: bytes.NewReader(w.data)}
 	size := int64(len(w.data))
 	opt := &pdf.ReaderOptions{Password: w.pw, ErrorHandling: w.mode}
 
 	var r *pdf.Reader
 	var err error
-	if !w.step("pdf.NewReader", func() { r, err = pdf.NewReader(src, size, opt) }) {
+	// Opening reads the header, the end of the file, every cross-reference
+	// section once (the /Prev chain is protected by a seen-set), and a handful
+	// of objects.  Sections start at distinct offsets at least a few dozen
+	// bytes apart and cost a scanner buffer (1 KiB) or two each, so the bytes
+	// read stay below about 100 x the file size; 64 MiB + 1000 x size is far
+	// beyond that.  A reader which exceeds it is going round in circles: the
+	// source then fails, and the walk reports "no progress" whatever
+	// NewReader makes of the failure.
+	src.limit.Store(64<<20 + 1000*size)
+	ok := w.step("pdf.NewReader", func() { r, err = pdf.NewReader(src, size, opt) })
+	if src.tripped.Load() && w.viol == nil {
+		w.viol = fmt.Errorf("no progress: pdf.NewReader read more than %d bytes from a file of %d bytes (bound 64 MiB + 1000 x size, %d ReadAt calls): the same data is read over and over", src.limit.Load(), size, src.calls.Load())
+	}
+	src.limit.Store(0)
+	src.n.Store(0)
+	if !ok || w.viol != nil {
 		return
 	}
 	switch {
